@@ -8,8 +8,9 @@ C16, round 6.
    mutex): for EVERY schedule of the writers' steps, every writer hands to its own connection a
    prefix of its own header block, the whole block once it is done — never an item of another
    request (`scratch_own_prefix`, `scratch_own_output`, `scratch_schedule_irrelevant`), for a pool
-   (`cap = none`) and for a mutex around one buffer (`cap = some 1`) alike, and two writers never
-   hold the same object (`scratch_exclusive`). The discipline "give the object back before
+   (`cap = none`) and for a mutex around one buffer (`cap = some 1`) alike, two writers never hold
+   the same object (`scratch_exclusive`), and in pool mode a writer that gets its steps does finish
+   (`scratch_pool_progress`). The discipline "give the object back before
    reading it" (seeds C16-r6-1 / C16-r6-2) is refuted by a two-writer schedule
    (`early_release_foreign_items`).
 2. Client-level order settings over op sequences with `Client.Clone`: the order lists a client sends
@@ -53,6 +54,19 @@ theorem scratch_exclusive (cap : Option Nat) (reqs : Nat → List α) (sched : L
     (hi : (run true cap reqs init sched).phase i = .holding id p)
     (hj : (run true cap reqs init sched).phase j = .holding id q) : i = j :=
   (inv_run cap reqs sched init (inv_init reqs)).excl i j id p q hi hj
+
+/-- pool mode (HTTP/1.1 sorter pool — nobody ever waits for a scratch object): a writer that is
+given `length + 2` steps, wherever they fall in the schedule, is done — and by `scratch_own_output`
+has then written exactly its own request. -/
+theorem scratch_pool_progress (reqs : Nat → List α) (sched : List Nat) (i : Nat)
+    (h : (reqs i).length + 2 ≤ sched.count i) :
+    (run true none reqs init sched).phase i = .done ∧ (run true none reqs init sched).out i = reqs i := by
+  have hd : (run true none reqs init sched).phase i = .done := by
+    apply done_of_remaining_zero reqs
+    rw [remaining_run]
+    have : remaining reqs (init : State α) i = (reqs i).length + 2 := by simp [remaining, init]
+    omega
+  exact ⟨hd, scratch_own_output none reqs sched i hd⟩
 
 example : (run true none (fun i => [10 * i, 10 * i + 1, 10 * i + 2]) init
     [0, 0, 1, 1, 1, 1, 1, 0, 0, 0]).out 0 = [0, 1, 2] := by decide
